@@ -432,6 +432,15 @@ TrBegin ==
   /\ Step(<<>>)
   /\ UNCHANGED <<kind, n, l2v, hs, gcN, roN, aux>>
 
+(* capacity probe (C05, C14): every handle was dropped and the store
+   collected; filling the manager with one-node operations until the first
+   allocation failure must reach the same node count as on the fresh manager *)
+TrProbe ==
+  /\ Ev("probe")
+  /\ Step(<< O("C05", "probe.capacity", Rec[l].filled = Rec[l].fresh),
+             O("C14", "probe.capacity", Rec[l].filled = Rec[l].fresh) >>)
+  /\ UNCHANGED <<kind, n, l2v, hs, gcN, roN, aux>>
+
 (* a collection that ran concurrently with operations of other threads *)
 TrCGc ==
   /\ Ev("cgc")
@@ -555,7 +564,7 @@ TrInit ==
 TrNext ==
   \/ TrReset \/ TrAddVars \/ TrOp \/ TrCofNone \/ TrClone \/ TrDrop
   \/ TrGc \/ TrReorder \/ TrObs \/ TrSnap \/ TrAdopt \/ TrConstructMismatch
-  \/ TrRows \/ TrBegin \/ TrPick \/ TrUni \/ TrCount \/ TrExpectOk \/ TrCGc
+  \/ TrRows \/ TrBegin \/ TrPick \/ TrUni \/ TrCount \/ TrExpectOk \/ TrCGc \/ TrProbe
 
 TrSpec == TrInit /\ [][TrNext]_tvars
 
